@@ -11,8 +11,8 @@
    [spec_of h addr ids ads q] (C17/Lemmas.v) is the pure, heap-free function
    "apply the adapters [ads] in list order to (path, copy of the caller's
    headers), then assemble url / id header / method / body". *)
-From Coq Require Import ZArith List Bool.
-From AK Require Import Common.Err gen.C17_Consts C17.Codec C17.Model C17.Base C17.Lemmas C17.CodecProofs C17.Spec.
+From Coq Require Import ZArith List Bool Lia.
+From AK Require Import Common.Err gen.C17_Consts C17.Codec C17.Model C17.Base C17.Lemmas C17.CodecProofs C17.Spec C17.LemmasAdd.
 Import ListNotations.
 Open Scope Z_scope.
 
@@ -207,6 +207,138 @@ Theorem clone_list : forall st i m ad l,
 Proof. intros st i m ad l R. apply clone_l. apply reachable_wf. exact R. Qed.
 Print Assumptions clone_list.
 
+(* ... a chain without authenticating layer and a caller who passed no Authorization key in any spelling:
+   the Request has no Authorization header *)
+Theorem no_auth_no_header : forall ads addr sids path meth params data d0 p d,
+  Forall (fun x => is_auth x = false) ads ->
+  last_cap basic_set_key d0 = None ->
+  adapters_pre ads (path, d0) = Ok (p, d) ->
+  dict_get basic_set_key (q_headers (snd (assemble addr sids ads p meth params data d))) = None.
+Proof. exact no_auth_l. Qed.
+Print Assumptions no_auth_no_header.
+
+(* falsy bodies: whatever is not None is sent -- b'' and '' as zero bytes, {} [] 0 False as their json text,
+   labelled application/json unless the (exact) key Content-Type is already in the headers *)
+Theorem body_never_dropped : forall addr sids ads p meth params b d,
+  exists bytes, q_data (snd (assemble addr sids ads p meth params (Some b) d)) = Some bytes /\
+    bytes = match b with BBytes x => x | BStr s => utf8 s | BJson js _ => utf8 js end.
+Proof. exact body_kept_l. Qed.
+Print Assumptions body_never_dropped.
+
+Theorem json_body : forall addr sids ads p meth params js t d,
+  dict_mem ctype_test_key d = false ->
+  q_data (snd (assemble addr sids ads p meth params (Some (BJson js t)) d)) = Some (utf8 js) /\
+  dict_get (capitalize ctype_set_key) (q_headers (snd (assemble addr sids ads p meth params (Some (BJson js t)) d)))
+    = Some (HStr ctype_val).
+Proof. exact json_body_l. Qed.
+Print Assumptions json_body.
+
+(* ------------------------------------------------------------------ *)
+(* add_adapter as an operation like any other (C17/LemmasAdd.v).        *)
+(* [reachable_any st]: st is produced from the empty state by ANY       *)
+(* sequence of operations.  [add_targets st ops]: the list objects      *)
+(* (conn.adapters) written by the add_adapter calls when ops run from   *)
+(* st.                                                                  *)
+
+(* 9. frame_any: no operation sequence whatsoever writes an object the caller created (the lists he passed
+   as `adapters`, header dicts, params, bodies) *)
+Theorem frame_any : forall st ops i r,
+  reachable_any st -> nth_error (cobjs st) i = Some r ->
+  nth_error (cobjs (fst (run_ops st ops))) i = Some r /\
+  hget (heap_of (fst (run_ops st ops))) r = hget (heap_of st) r.
+Proof. intros st ops i r R. apply frame_any_l. apply reachable_any_own. exact R. Qed.
+Print Assumptions frame_any.
+
+(* 10. noninterference_any: a request through connection c / a wrapper call on caller m observes the same
+   after ANY operation sequence in which add_adapter is not called on the object c / m.http_conn itself --
+   derivations from it, clones, their component lookups and add_adapter on any of those included *)
+Theorem noninterference_any : forall st ops,
+  reachable_any st ->
+  (forall i c q ra, nth_error (conns st) i = Some c -> resolve st q = Ok ra ->
+     ~ In (conn_lref c) (add_targets st ops) ->
+     snd (step (fst (run_ops st ops)) (ORequest i q)) = snd (step st (ORequest i q))) /\
+  (forall i m comps q ra, nth_error (callers st) i = Some m -> resolve st q = Ok ra ->
+     ~ In (conn_lref (m_conn m)) (add_targets st ops) ->
+     snd (step (fst (run_ops st ops)) (OCall i comps q)) = snd (step st (OCall i comps q))).
+Proof.
+  intros st ops R. pose proof (reachable_any_own _ R) as J. pose proof (reachable_any_callers _ R) as K. split.
+  - intros i c q ra. apply noninterference_any_l. exact J.
+  - intros i m comps q ra. apply noninterference_call_any_l; assumption.
+Qed.
+Print Assumptions noninterference_any.
+
+(* the lists written by add_adapter belong to connections: to one that existed before the run or to one
+   made during it; a successful HttpConn(..) / BAuthConn(..) / ... / clone(..) makes ONE new object whose
+   list is a new cell -- so add_adapter on a derived connection is never add_adapter on the original *)
+Theorem add_targets_are_connections : forall ops st t, In t (add_targets st ops) ->
+  (exists c, In c (conns st) /\ conn_lref c = t) \/ (length (heap_of st) <= t)%nat.
+Proof. exact add_targets_old_or_new. Qed.
+Print Assumptions add_targets_are_connections.
+
+Theorem derived_is_new_object : forall st o, derives o = true -> snd (step st o) = Ok OUnit ->
+  exists c', conns (fst (step st o)) = conns st ++ [c'] /\ (length (heap_of st) <= conn_lref c')%nat.
+Proof. exact derive_fresh. Qed.
+Print Assumptions derived_is_new_object.
+
+(* 11. derive_then_add: derive a connection (or clone a caller), call add_adapter on the derived connection,
+   continue with anything that does not call add_adapter on c itself: requests through c are as before *)
+Theorem derive_then_add : forall st o a ops' i c q ra,
+  reachable_any st -> derives o = true -> snd (step st o) = Ok OUnit ->
+  nth_error (conns st) i = Some c -> resolve st q = Ok ra ->
+  ~ In (conn_lref c) (add_targets (fst (run_ops st [o; OAddAdapter (length (conns st)) a])) ops') ->
+  snd (step (fst (run_ops st (o :: OAddAdapter (length (conns st)) a :: ops'))) (ORequest i q)) =
+  snd (step st (ORequest i q)).
+Proof. intros st o a ops' i c q ra R. apply derive_then_add_l. apply reachable_any_own. exact R. Qed.
+Print Assumptions derive_then_add.
+
+(* 12. add_adapter_effect: conn.add_adapter(a) rewrites the connection's own list to `list ++ [a]` and nothing
+   else; the next request through that connection is the specification of `list ++ [a]`: a is applied LAST,
+   behind the adapters of the whole chain (a prefix added this way ends up outermost) *)
+Theorem add_adapter_effect : forall st i c l a,
+  nth_error (conns st) i = Some c -> hget (heap_of st) (conn_lref c) = Some (CAdapters l) ->
+  step st (OAddAdapter i a) = (upd_heap st (hset (heap_of st) (conn_lref c) (CAdapters (l ++ [a]))), Ok OUnit) /\
+  forall q ra, reachable_any st -> resolve st q = Ok ra ->
+    snd (step (fst (step st (OAddAdapter i a))) (ORequest i q)) =
+    omap (spec_of (heap_of st) (fst (conn_root c)) (snd (conn_root c)) (l ++ [a]) ra).
+Proof.
+  intros st i c l a Ec El. split; [apply add_adapter_step; assumption|].
+  intros q ra R Er. apply request_after_add_l; try assumption. apply reachable_any_own. exact R.
+Qed.
+Print Assumptions add_adapter_effect.
+
+(* 13. in ANY reachable state a request is the specification applied to the current content of the
+   connection's own list, and a wrapper call the specification applied to its view (cached connection of
+   its prefix, else prefix adapter + the current list of the caller's connection) *)
+Theorem request_any : forall st i q c ra,
+  nth_error (conns st) i = Some c -> resolve st q = Ok ra ->
+  snd (step st (ORequest i q)) =
+  match hget (heap_of st) (conn_lref c) with
+  | Some (CAdapters ads) => omap (spec_of (heap_of st) (fst (conn_root c)) (snd (conn_root c)) ads ra)
+  | _ => Err OtherErr
+  end.
+Proof. exact request_obs_any. Qed.
+Print Assumptions request_any.
+
+Theorem wrapper_call_any : forall st i comps q m ra,
+  reachable_any st -> nth_error (callers st) i = Some m -> resolve st q = Ok ra ->
+  snd (step st (OCall i comps q)) = view_obs (heap_of st) (call_view (heap_of st) m comps) ra.
+Proof.
+  intros st i comps q m ra R. apply call_obs_view; [apply reachable_any_own|apply reachable_any_callers]; exact R.
+Qed.
+Print Assumptions wrapper_call_any.
+
+(* 14. the same caller objects passed to several requests: the second request observes what the first did *)
+Theorem same_objects_reused : forall st i c q ra,
+  reachable_any st -> nth_error (conns st) i = Some c -> resolve st q = Ok ra ->
+  snd (step (fst (step st (ORequest i q))) (ORequest i q)) = snd (step st (ORequest i q)).
+Proof.
+  intros st i c q ra R Ec Er.
+  pose proof (noninterference_any_l st [ORequest i q] i c q ra (reachable_any_own _ R) Ec Er) as H.
+  cbn [run_ops add_targets add_target app] in H. destruct (step st (ORequest i q)) as [st1 x]. cbn [fst] in *.
+  apply H. intros [].
+Qed.
+Print Assumptions same_objects_reused.
+
 (* ------------------------------------------------------------------ *)
 (* non-vacuity: concrete programs                                       *)
 
@@ -260,3 +392,50 @@ Example two_auth_example :
   snd (step (fst (run_ops init (ex_prog ++ [OConn (WToken [116]) (CDConn 1)]))) (ORequest 4 ex_q)) = Err AssertErr.
 Proof. vm_compute. reflexivity. Qed.
 Print Assumptions two_auth_example.
+
+(* the Authorization value of the example decodes to 'u:p' *)
+Example auth_decode_example :
+  decode_basic basic_prefix (HBytes ([66;97;115;105;99;32] ++ [100;84;112;119])) = Some [117;58;112] /\
+  auth_value (ABasic [117] [112]) = Some (basic_set_key, basic_set_key, HBytes ([66;97;115;105;99;32] ++ [100;84;112;119])).
+Proof. vm_compute. split; reflexivity. Qed.
+Print Assumptions auth_decode_example.
+
+(* falsy bodies through the example chain: '' and b'' are sent as zero bytes, 0 and [] as their json text with
+   Content-Type application/json; the default method (no verb given) is GET for all of them *)
+Example falsy_bodies_example :
+  let st := fst (run_ops init (ex_prog ++ [ONewBody (BStr []); ONewBody (BBytes []); ONewBody (BJson [48] false);
+                                           ONewBody (BJson [91;93] false)])) in
+  let q n := {| s_meth := MRaw None; s_path := [47;97]; s_params := None; s_data := Some n; s_headers := None |} in
+  let data n := match snd (step st (ORequest 1 (q n))) with Ok (OReq cap) => Some (q_data cap, q_method cap,
+                   dict_get (capitalize ctype_set_key) (q_headers cap)) | _ => None end in
+  data 4%nat = Some (Some [], [71;69;84], None) /\ data 5%nat = Some (Some [], [71;69;84], None) /\
+  data 6%nat = Some (Some [48], [71;69;84], Some (HStr ctype_val)) /\
+  data 7%nat = Some (Some [91;93], [71;69;84], Some (HStr ctype_val)).
+Proof. vm_compute. repeat split. Qed.
+Print Assumptions falsy_bodies_example.
+
+(* add_adapter on the clone's connection (index 3): the hypothesis of noninterference_any holds for the
+   original caller's connection (index 2) and for the connections below it, and the clone's requests do change *)
+Example add_on_clone_example :
+  let st := fst (run_ops init ex_prog) in
+  let ops := [OAddAdapter 3 (AToken [116])] in
+  (forall i c, (i < 3)%nat -> nth_error (conns st) i = Some c -> ~ In (conn_lref c) (add_targets st ops)) /\
+  snd (step (fst (run_ops st ops)) (ORequest 3 ex_q)) <> snd (step st (ORequest 3 ex_q)) /\
+  snd (step (fst (run_ops st ops)) (OCall 0 (Some [[99]]) ex_q)) = snd (step st (OCall 0 (Some [[99]]) ex_q)).
+Proof.
+  split; [|split].
+  - intros [|[|[|i]]] c L; try lia; vm_compute; intros [= <-] [H|[]]; discriminate.
+  - vm_compute. discriminate.
+  - vm_compute. reflexivity.
+Qed.
+Print Assumptions add_on_clone_example.
+
+(* a connection derived AFTER add_adapter on its parent inherits the added adapter (its list is built from the
+   parent's current list); one derived BEFORE does not *)
+Example derived_after_add_inherits :
+  let st := fst (run_ops init (ex_prog ++ [OAddAdapter 0 (ATag 121); OConn (WHttp ADNone) (CDConn 0)])) in
+  let tag i := match snd (step st (ORequest i ex_q)) with
+               | Ok (OReq cap) => dict_get (capitalize x_tag) (q_headers cap) | _ => None end in
+  tag 4%nat = Some (HStr [121]) /\ tag 0%nat = Some (HStr [121]) /\ tag 1%nat = None /\ tag 3%nat = Some (HStr [120]).
+Proof. vm_compute. repeat split. Qed.
+Print Assumptions derived_after_add_inherits.
